@@ -191,6 +191,10 @@ func c20Run(w *core.Worker, ci int, hsql []string, kind func(int) string, gaps [
 			bN++
 			stamp := fmt.Sprintf("B%d", bN)
 			res := core.RunProc(core.ProcOpts{Dir: dir, Args: csvqArgs("-q", "--wait-timeout", "0.2", fmt.Sprintf("UPDATE t SET ver = '%s';", stamp)), Timeout: 60 * time.Second})
+			if res.KilledFromOutside() {
+				w.Inconclusive(fmt.Sprintf("process B was ended by signal %d from outside the case", res.Signal))
+				return
+			}
 			switch {
 			case exclusive:
 				if res.Code != 8 {
@@ -210,6 +214,10 @@ func c20Run(w *core.Worker, ci int, hsql []string, kind func(int) string, gaps [
 				// a 0.2 s deadline also runs out on a loaded machine with nobody holding the file: B is given ten seconds once more —
 				// with no lock held it ends at once, against a lock A should not hold it still fails
 				res = core.RunProc(core.ProcOpts{Dir: dir, Args: csvqArgs("-q", "--wait-timeout", "10", fmt.Sprintf("UPDATE t SET ver = '%s';", stamp)), Timeout: 60 * time.Second})
+				if res.KilledFromOutside() {
+					w.Inconclusive(fmt.Sprintf("process B was ended by signal %d from outside the case", res.Signal))
+					return
+				}
 				if res.Code != 0 {
 					viol(k, "b-failed", fmt.Sprintf("B failed with exit %d although A holds no lock: %s", res.Code, truncateStr(res.Stderr, 150)))
 					return
